@@ -28,6 +28,18 @@ pub(crate) struct FsState { pub origin: u32, pub len: u32 }
     q.concurrency_guard.load(Relaxed)
 }
 
+impl<const N: usize> crate::ogre_std::ogre_queues::atomic::atomic_move::verif_hooks::RingModel<N> for FullSyncMove<u32, N> {
+    fn force(&self, origin: u32, len: u32, content: [u32; N]) {
+        set_counters(self, FsState { origin, len });
+        unsafe { *raw_buffer(self) = content; }
+    }
+    fn snapshot(&self) -> (u32, u32, [u32; N]) {
+        let (h, t) = unsafe { (*self.head.get(), *self.tail.get()) };
+        (h, t.wrapping_sub(h), unsafe { *raw_buffer(self) })
+    }
+    fn quiescent(&self) -> bool { let (_o, l, _c) = self.snapshot(); !locked(self) && l <= N as u32 }
+}
+
 #[cfg(kani)]
 mod proofs {
     use super::*;
